@@ -109,7 +109,25 @@ func genC19World(src *choice.Src) *World {
 			w.Env[kv[0]] = kv[1]
 		}
 	}
+	if src.Chance("gogenerate", 1, 5) {
+		// started by `go generate` from a directive in some package of the tree
+		if w.Env == nil {
+			w.Env = map[string]string{}
+		}
+		w.Env["GOPACKAGE"] = choice.Pick(src, "gopackage", []string{"main", "cmd", "gontainer", "runner"})
+		w.Env["GOFILE"] = choice.Pick(src, "gofile", []string{"main.go", "doc.go", "cmd_build.go"})
+		w.Env["GOLINE"] = fmt.Sprint(1 + src.Draw("goline", 90))
+		w.Env["GOARCH"], w.Env["GOOS"], w.Env["GOROOT"], w.Env["DOLLAR"] = "amd64", "linux", "/usr/lib/go", "$"
+	}
 	w.NoGo = src.Chance("nogo", 1, 4)
+	if src.Chance("linked", 1, 6) {
+		// some of the configuration files are symbolic links to files with the same bytes
+		for i := range w.Files {
+			if src.Chance("linked.file", 1, 2) {
+				w.Files[i].Kind = "link"
+			}
+		}
+	}
 	if src.Chance("cwd", 1, 3) {
 		w.CwdSub = choice.Pick(src, "cwdsub", []string{"x", "deep/er/still", "a b", "proj[1]", "we*rd", "q?", "back\\slash"})
 		w.CwdGo = src.Bool("cwdgo")
@@ -205,7 +223,39 @@ func CheckC19(t Target, src *choice.Src, st *Stats) *Violation {
 				"map_seed": w.MapSeed, "list_seed": w.ListSeed, "env": w.Env, "no_go_on_path": w.NoGo, "cwd": w.CwdSub, "faults": w.Faults, "exit": r.Exit})
 		}
 	}
-	return judgeC19(w, r)
+	if v := judgeC19(w, r); v != nil {
+		return v
+	}
+	// whatever variable the run looked at is not part of the self-configuration: set every one of them
+	// and regenerate again
+	if len(w.Faults) == 0 {
+		var reads []string
+		seen := map[string]bool{}
+		for _, k := range r.EnvReads {
+			if k != "*" && !seen[k] && !strings.HasPrefix(k, "VERIFSIM_") {
+				seen[k] = true
+				reads = append(reads, k)
+			}
+		}
+		if len(reads) > 0 {
+			ew := w.Clone()
+			if ew.Env == nil {
+				ew.Env = map[string]string{}
+			}
+			for _, k := range reads {
+				ew.Env[k] = choice.Pick(src, "envread.val", []string{"1", "main", "true", "x", "/tmp/elsewhere"})
+			}
+			er := Exec(t, ew)
+			if st != nil {
+				st.note(ew, er)
+				st.Probes["env-read-twins"]++
+			}
+			if v := judgeC19(ew, er); v != nil {
+				return v
+			}
+		}
+	}
+	return nil
 }
 
 func judgeC19(w *World, r *Result) *Violation {
